@@ -8,6 +8,8 @@ import PMV.Props.C10
 #print axioms PMV.SetItem.setitem_update
 #print axioms PMV.SetItem.masked_entry_writes_nothing
 #print axioms PMV.SetItem.readback
+#print axioms PMV.SetItem.mapM_some_mem
+#print axioms PMV.SetItem.derivs_updated_missing_as_zero
 #print axioms PMV.SetItem.step_shape
 #print axioms PMV.SetItem.sequence_of_assignments
 #print axioms PMV.SetItem.shared_mask_untouched
